@@ -64,6 +64,10 @@ def main():
             mode = faults.get("upload", "ok")
         if mode == "missing":
             raise FileNotFoundError(2, "No such file or directory", "pio")
+        if mode == "permission":
+            raise PermissionError(13, "Permission denied", "pio")
+        if mode == "oserror":
+            raise OSError(8, "Exec format error", "pio")
         if mode == "fail":
             if k.get("check"):
                 raise subprocess.CalledProcessError(1, cmd)
@@ -138,6 +142,36 @@ def main():
         tempfile.mkdtemp = real_mkdtemp
         pathlib.Path.write_text = real_write_text
         pathlib.Path.mkdir = real_mkdir
+    if cfg.get("second") and state.get("outcome") == "returned":
+        # history: rewrite the same path and call target() again in this process
+        with open(script_path, "w", encoding="utf-8") as f:
+            f.write(cfg["second"])
+        p2 = parse(cfg["second"])
+        sec = {"expected_cpp": emit(p2), "expected_libs": Reduino._collect_required_libraries(p2)}
+        first_state = dict(state)
+        state.clear()
+        subprocess.run = fake_run
+        tempfile.mkdtemp = fake_mkdtemp
+        try:
+            runpy.run_path(script_path, run_name="__main__")
+        except Done:
+            pass
+        except BaseException as exc:  # noqa: BLE001
+            sec["error"] = repr(exc)[:200]
+        finally:
+            subprocess.run = real_run
+            tempfile.mkdtemp = real_mkdtemp
+        sec["ret"] = state.get("ret") if isinstance(state.get("ret"), str) else repr(state.get("ret"))
+        ini = ""
+        if made:
+            try:
+                ini = open(os.path.join(made[-1], "platformio.ini"), encoding="utf-8").read()
+            except OSError:
+                ini = ""
+        sec["libs_written"] = [x.strip() for x in ini.split("lib_deps =")[1].splitlines() if x.strip()] if "lib_deps =" in ini else []
+        out["second"] = sec
+        state.clear()
+        state.update(first_state)
     out.update(state)
     ret = state.get("ret")
     out["ret_is_str"] = isinstance(ret, str)
